@@ -23,7 +23,11 @@ import tempfile
 PID, K = sys.argv[1], sys.argv[2]
 SKIP = '--skip-suite' in sys.argv
 SRC = f'/tmp/wt/{PID}.out'
-DEST = f'/verif/seeded/{PID}-{K}'
+AS = K
+for i, a in enumerate(sys.argv):
+    if a == '--as':
+        AS = sys.argv[i + 1]
+DEST = f'/verif/seeded/{PID}-{AS}'
 PY = '/venv/bin/python'
 
 
@@ -105,7 +109,7 @@ def main():
             'demo_output_patched_tail': o1.strip()[-400:],
         }
         json.dump(meta, open(os.path.join(DEST, 'meta.json'), 'w'), indent=1)
-        print(f'{PID}-{K}: KEPT ({suite})')
+        print(f'{PID}-{AS}: KEPT ({suite})')
         return 0
     finally:
         sh(['git', '-C', '/repo', 'worktree', 'remove', '--force', wt],
